@@ -34,7 +34,7 @@ def BOUNDS(tier):
 
 
 def CONTEXTS(tier):
-    return ["root", "member", "desc", "multi", "filter_exists", "filter_count", "filter_value"]
+    return ["root", "member", "desc", "multi", "mixed", "filter_exists", "filter_count", "filter_value"]
 
 
 def SPELLINGS(tier):
@@ -155,6 +155,14 @@ def contexts(sel, target, expect_idx, ctx):
         doc = [target]
         n = len(expect_idx)
         return f"$[?count(@[{sel}]) != {n}]", doc, []
+    if ctx == "mixed":
+        # next to selectors of other kinds that match nothing on an array (and a wildcard after it)
+        e = [((i,), target[i]) for i in expect_idx]
+        allc = [((i,), target[i]) for i in range(len(target))] if isinstance(target, list) else []
+        if isinstance(target, dict):
+            allc = [((k,), v) for k, v in target.items()]
+            return f"$['zz', {sel}, *]", target, e + allc
+        return f"$['a', {sel}, \"0\", ?@ == 'nope', *]", target, e + allc
     if ctx == "multi":
         # the selector twice in one segment: results concatenated, duplicates kept
         e = [((i,), target[i]) for i in expect_idx]
